@@ -4,7 +4,7 @@ import ast
 from ..model import AnalysisError, unparse, walk_local
 from ..paths import Evaluator, is_c, show, C, S, NONE, subterms, contains
 from ..poly import Algebra, Poly
-from .common import (calls_to, guards_of, loop_containing_call, mk_algebra, trace_tail, EXTRACTORS,
+from .common import (cmp_views, calls_to, guards_of, loop_containing_call, mk_algebra, trace_tail, EXTRACTORS,
                      count_set, const_value)
 
 STOP_METHODS = ('sd', 'rilling', 'fixed')
@@ -97,16 +97,30 @@ def rule_cleared_flag(ctx, rid, fi):
 def _return_accumulator(fi):
     """Name of the variable returned by the variant (first element of a tuple)."""
     names = []
+    # names bound exactly once to a tuple / conditional expression / other name (`ret = (imf, freqs); return ret`)
+    once = {}
+    for n in walk_local(fi.node):
+        if isinstance(n, ast.Assign) and len(n.targets) == 1 and isinstance(n.targets[0], ast.Name):
+            once.setdefault(n.targets[0].id, []).append(n.value)
+        elif isinstance(n, (ast.AugAssign, ast.For)):
+            for m in ast.walk(n.target):
+                if isinstance(m, ast.Name):
+                    once.setdefault(m.id, []).extend([None, None])
+
+    def follow(v, depth=0):
+        if isinstance(v, ast.IfExp):
+            return follow(v.body, depth) + follow(v.orelse, depth)
+        if isinstance(v, ast.Tuple) and v.elts:
+            return follow(v.elts[0], depth)
+        if isinstance(v, ast.Name):
+            vals = once.get(v.id, [])
+            if len(vals) == 1 and isinstance(vals[0], (ast.Tuple, ast.Name)) and depth < 3:
+                return follow(vals[0], depth + 1)
+            return [v.id]
+        return []
     for n in walk_local(fi.node):
         if isinstance(n, ast.Return) and n.value is not None:
-            vs = [n.value]
-            if isinstance(n.value, ast.IfExp):
-                vs = [n.value.body, n.value.orelse]
-            for v in vs:
-                if isinstance(v, ast.Tuple) and v.elts:
-                    v = v.elts[0]
-                if isinstance(v, ast.Name):
-                    names.append(v.id)
+            names.extend(follow(n.value))
     names = set(names)
     return names.pop() if len(names) == 1 else None
 
@@ -916,8 +930,9 @@ def rule_bounded_loop(ctx, rid, gni, limit='max_iters', exc='emd.support.EMDSift
             return False
         for e in raises:
             for c, truth, ln in e.state.conds:
-                if truth and c[0] == 'cmp' and c[1] in ('>', '>=') and c[3] == S(limit) and counter_term(c[2]):
-                    ok_raise = True
+                for op_, l_, r_ in cmp_views(c):
+                    if truth and op_ in ('>', '>=') and r_ == S(limit) and counter_term(l_):
+                        ok_raise = True
         if not ok_raise:
             ctx.violation(rid, gni, c_guard, 'no path raises the convergence error when the counter exceeds max_iters',
                           node=loop, expected='raise %s under counter > %s' % (exc.split('.')[-1], limit),
@@ -928,9 +943,9 @@ def rule_bounded_loop(ctx, rid, gni, limit='max_iters', exc='emd.support.EMDSift
             if kind != 'back2':
                 continue
             passed = False
-            for c, truth, ln in b.conds:
-                if c[0] != 'cmp':
-                    continue
+            for c0, truth, ln in b.conds:
+              for op_, l_, r_ in cmp_views(c0):
+                c = ('cmp', op_, l_, r_)
                 is_counter = counter_term(c[2])
                 if is_counter and c[1] in ('>', '>=') and c[3] == S(limit) and truth is False:
                     passed = True
